@@ -594,8 +594,8 @@ class RFBClient(Protocol):  # type: ignore[misc]
         m = bytes_to_long(self.modulus)
         sk = bytes_to_long(self.serverKey)
 
-        key = long_to_bytes(pow(g, s, m))
-        shared = long_to_bytes(pow(sk, s, m))
+        key = long_to_bytes(pow(g, s, m), self.keyLen)
+        shared = long_to_bytes(pow(sk, s, m), self.keyLen)
 
         h = MD5.new()
         h.update(shared)
